@@ -1,6 +1,6 @@
 (** * C15 — statement splitting agrees with the lexer and loses nothing.
     Only statements here; every proof is [exact] of a lemma from Proofs/. *)
-From PQL Require Import Model.Lexer Proofs.LexerFacts Proofs.SplitFacts.
+From PQL Require Import Model.Lexer Proofs.LexerFacts Proofs.SplitFacts Proofs.LexCut Proofs.ScanCut Proofs.Locality.
 From Coq Require Import String.
 Local Open Scope list_scope.
 Local Open Scope nat_scope.
@@ -22,6 +22,33 @@ Theorem C15_semi_token_is_semicolon : forall s t, In t (scan s) -> tkind t = KSe
   tend t = S (tstart t) /\ nth_error s (tstart t) = Some 59%N.
 Proof. exact scan_semi_byte. Qed.
 Print Assumptions C15_semi_token_is_semicolon.
+
+(** Locality.  [join_scans off pieces] (coq/Proofs/Locality.v) is the token list obtained by scanning
+    every piece on its own, moving its tokens to the piece's offset and putting one semicolon token
+    between consecutive pieces.  The scan of the whole source is exactly that: each piece scanned
+    alone yields the same tokens (kinds, values, positions up to the piece's offset) it has in
+    context - whatever token the cut falls next to (numbers with dangling exponents, `0x`, `/`,
+    operators with look-ahead, truncated UTF-8, unterminated strings, comments). *)
+Theorem C15_locality : forall s, scan s = join_scans 0 (split_statements s).
+Proof. exact scan_locality. Qed.
+Print Assumptions C15_locality.
+
+(** no piece contains a semicolon token *)
+Theorem C15_no_semi : forall s p, In p (split_statements s) -> no_semi (scan p) = true.
+Proof. exact pieces_have_no_semi. Qed.
+Print Assumptions C15_no_semi.
+
+(** the underlying boundary facts: an item that ends before a semicolon does not depend on what
+    follows it, and a semicolon token splits the scan into the scans of the two sides *)
+Theorem C15_item_cut : forall a b, a <> [] -> item_len (lex1 (a ++ 59%N :: b)) <= length a ->
+  lex1 (a ++ 59%N :: b) = lex1 a.
+Proof. exact lex1_semi_cut. Qed.
+Print Assumptions C15_item_cut.
+
+Theorem C15_scan_cut : forall a b, (exists t, In t (scan (a ++ 59%N :: b)) /\ tstart t = length a) ->
+  scan (a ++ 59%N :: b) = scan a ++ semi_tok (length a) :: map (shift_tok (S (length a))) (scan b).
+Proof. exact scan_semi. Qed.
+Print Assumptions C15_scan_cut.
 
 (** non-vacuity: a source whose string and comment contain ';' is cut once *)
 Example C15_example :
